@@ -1,8 +1,86 @@
 import PybtexModel.Drv.Json
+import PybtexModel.Spec.AuxFile
 open Lean
 namespace Pybtex.Drv.C20
+open Pybtex.Aux
 
-/-- driver ops of this property: (op name, handler) -/
-def handlers : List (String × (Json → Except String Json)) := []
+def parseFiles (l : List Json) : Except String (List (Path × List Str)) :=
+  l.mapM fun p => do
+    let a ← p.getArr?
+    match a.toList with
+    | [n, ls] =>
+      let name ← jsonToStr n
+      let lines ← (← ls.getArr?).toList.mapM jsonToStr
+      pure (name, lines)
+    | _ => throw "file = [name, [lines]] expected"
+
+def reportJ (r : Report) : Json :=
+  obj [("kind", Json.str r.kind.name), ("file", strToJson r.file), ("lineno", optJ nat r.lineno),
+       ("str", strToJson r.str), ("ctx", optJ strToJson r.getContext)]
+
+def fatalJ : Fatal → Json
+  | .aux e => reportJ e
+  | .cannotOpen p =>
+    obj [("kind", Json.str "open"), ("file", Json.null), ("lineno", Json.null),
+         ("str", strToJson ("unable to open ".toList ++ p ++ ". No such file or directory".toList)),
+         ("ctx", Json.null)]
+  | .outOfFuel =>
+    obj [("kind", Json.str "MODEL:out_of_fuel"), ("file", Json.null), ("lineno", Json.null),
+         ("str", Json.null), ("ctx", Json.null)]
+  | .attributeError =>
+    obj [("kind", Json.str "MODEL:attribute_error"), ("file", Json.null), ("lineno", Json.null),
+         ("str", Json.null), ("ctx", Json.null)]
+
+def outJ : Except Abort St → Json
+  | .ok st =>
+    obj [("citations", strs st.citations), ("style", optJ strToJson st.style), ("data", optJ strs st.data),
+         ("errors", arr (st.reports.map reportJ)), ("fatal", Json.null)]
+  | .error a =>
+    obj [("citations", Json.null), ("style", Json.null), ("data", Json.null),
+         ("errors", arr (a.reports.map reportJ)), ("fatal", fatalJ a.fatal)]
+
+def specReportJ (r : Report) : Json :=
+  obj [("kind", Json.str r.kind.name), ("file", strToJson r.file), ("lineno", optJ nat r.lineno),
+       ("text", optJ strToJson r.line), ("msg", strToJson r.kind.message)]
+
+/-- `aux`: {files: [[name, [line…]]…], top: name} -/
+def aux (j : Json) : Except String Json := do
+  let files ← parseFiles (← getArr j "files")
+  let top ← getStr j "top"
+  let fs := fsOf files
+  let fuel := files.length + 1
+  let evs := Spec.events fs fuel top
+  pure (obj [
+    ("out", outJ (parse fs fuel top)),
+    ("spec", obj [
+      ("closed", Json.bool (closedDepth fs fuel top)),
+      ("acyclic", Json.bool (depthOk fs fuel top)),
+      ("citations", strs (Spec.citations evs)),
+      ("style", optJ strToJson (Spec.style evs)),
+      ("data", optJ strs (Spec.data evs)),
+      ("errors", arr ((Spec.reports evs).map specReportJ)),
+      ("fatal", optJ (fun k => Json.str (Kind.name k)) (Spec.fatal evs)),
+      ("events", nat evs.length)])])
+
+def cmdName : Cmd → String
+  | .citation => "citation" | .bibdata => "bibdata" | .bibstyle => "bibstyle" | .input => "@input"
+
+def itemJ : Spec.Item → Json
+  | .citation ks => arr [Json.str "citation", strToJson (joinWith [','] ks)]
+  | .bibstyle s => arr [Json.str "bibstyle", strToJson s]
+  | .bibdata ns => arr [Json.str "bibdata", strToJson (joinWith [','] ns)]
+  | .input f => arr [Json.str "@input", strToJson f]
+  | .other => Json.null
+
+/-- `auxmatch`: the matcher alone — {s: line} ↦ groups of `command_re.match(s)` or null;
+`split` = `s.split(',')` -/
+def auxmatch (j : Json) : Except String Json := do
+  let s ← getStr j "s"
+  pure (obj [
+    ("out", obj [("groups", optJ (fun (p : Cmd × Str) => arr [Json.str (cmdName p.1), strToJson p.2]) (matchCommand s)),
+                 ("split", strs (pySplit ',' s)), ("strip", strToJson (strip s))]),
+    ("spec", obj [("groups", itemJ (Spec.classify s)), ("split", strs (Spec.splitComma s))])])
+
+def handlers : List (String × (Json → Except String Json)) := [("aux", aux), ("auxmatch", auxmatch)]
 
 end Pybtex.Drv.C20
